@@ -23,6 +23,8 @@ fn fams_of(mask: u64) -> Vec<Family> {
 #[derive(Clone, Debug)]
 struct GroupCfg {
     prefix: String,
+    /// a second dynamic prefix of the same group (nested in, covering or disjoint from the first)
+    prefix2: Option<String>,
     asn: u32,
     hold: u64,
     rs: bool,
@@ -108,7 +110,9 @@ impl Check for Admission {
         let groups: Vec<Json> = (0..n_groups)
             .map(|g| {
                 let np = if rng.chance(1, 8) { 5 } else { 4 };
-                jobj! {"prefix" => *rng.pick(&prefixes[..np]), "asn" => *rng.pick(&[0u64, 65100 + g, 65100 + g]), "hold" => *rng.pick(&[0u64, 30, 240]),
+                let p1 = *rng.pick(&prefixes[..np]);
+                let p2 = if rng.chance(1, 2) { Some(*rng.pick(&prefixes[..4])).filter(|p| *p != p1) } else { None };
+                jobj! {"prefix" => p1, "prefix2" => match p2 { Some(p) => Json::from(p), None => Json::Null }, "asn" => *rng.pick(&[0u64, 65100 + g, 65100 + g]), "hold" => *rng.pick(&[0u64, 30, 240]),
                        "rs" => rng.chance(1, 5), "rr" => false, "fams" => *rng.pick(&[0u64, 1, 3]), "addpath" => rng.below(4), "gr" => rng.chance(1, 3), "llgr" => *rng.pick(&[0u64, 0, 3600])}
             })
             .collect();
@@ -130,7 +134,7 @@ impl Check for Admission {
         for _ in 0..n {
             let a = rng.below(pool.len() as u64);
             match rng.weighted(&[30, 12, 14, 4, 4, 3, 3, 6, if n_api > 0 { 8 } else { 0 }, if n_api > 0 { 2 } else { 0 }, if n_api > 0 { 5 } else { 0 }, if n_groups > 0 { 4 } else { 0 }, if n_groups > 0 { 5 } else { 0 }]) {
-                12 => ops.push(jarr![if rng.chance(3, 5) { "dyn-del" } else { "dyn-add" }, rng.below(n_groups.max(1))]),
+                12 => ops.push(jarr![if rng.chance(3, 5) { "dyn-del" } else { "dyn-add" }, rng.below(n_groups.max(1)), rng.below(2)]),
                 0 => ops.push(jarr!["conn", a, rng.below(4), *rng.pick(&[0u64, 1, 3, 5, 15]), rng.below(4)]),
                 1 => ops.push(jarr!["handshake", a]),
                 2 => ops.push(jarr!["close", a]),
@@ -164,7 +168,7 @@ impl Check for Admission {
 
     fn info(&self) -> CheckInfo {
         CheckInfo {
-            rule: "1-3 static neighbours (eBGP / iBGP / RR client / RS client / confed member, admin-down flags, hold 0/9/90/180, family sets, add-path modes, GR) and 0-3 peer groups with dynamic prefixes (nested and overlapping IPv4, IPv6, 0.0.0.0/0); connections from 11 source addresses inside and outside them; ops connect (with a drawn remote capability list: family set, add-path mode 0-3, GR), complete the handshake, close, open a second connection in the same direction, operator disable/enable, waits, `api-add` / `api-upd` / `api-del` (0-2 further neighbours configured, re-configured and removed through the real AddPeer / UpdatePeer / DeletePeer handlers, 2 of 3 as members of a named peer group whose AS, hold time, families, add-path and route-server flag they inherit where they have none of their own, with graceful restart and per-family prefix limits of their own), `dyn-del` / `dyn-add` (a group's dynamic prefix removed through DeleteDynamicNeighbor and configured again; connections from its addresses afterwards are judged against the prefixes that are left), `grp-upd` (UpdatePeerGroup with another hold time, family set, add-path mode, graceful restart; dynamic neighbours created afterwards are judged against the new values), and `dial`: the remote side of a non-passive neighbour listens and takes the daemon's own outgoing connection, in one third of the cases with an operator task that disables the neighbour at the instant the TCP handshake completes (after the connect task queued the socket, before the dispatch loop took it). Oracle on the wire and on Global: a connection is served (OPEN sent) iff the reference admission predicate holds, otherwise closed before any OPEN byte; the OPEN's AS (confederation id towards non-members), hold time, router id and capability list (families, add-path, graceful restart with its time and families, LLGR with its families and stale times, 4-octet AS) equal the neighbour's or group's configuration; the prefix limits in the peer record equal the configured ones; role read back from the peer record equals the reference; both negotiate(a,b)/negotiate(b,a) give mirror-image parameters; a dynamic neighbour's record disappears when its last connection ends. non-trivial = at least one dynamic neighbour was created or one connection was refused".into(),
+            rule: "1-3 static neighbours (eBGP / iBGP / RR client / RS client / confed member, admin-down flags, hold 0/9/90/180, family sets, add-path modes, GR) and 0-3 peer groups with one or two dynamic prefixes each (nested and overlapping IPv4, IPv6, 0.0.0.0/0); connections from 11 source addresses inside and outside them; ops connect (with a drawn remote capability list: family set, add-path mode 0-3, GR), complete the handshake, close, open a second connection in the same direction, operator disable/enable, waits, `api-add` / `api-upd` / `api-del` (0-2 further neighbours configured, re-configured and removed through the real AddPeer / UpdatePeer / DeletePeer handlers, 2 of 3 as members of a named peer group whose AS, hold time, families, add-path and route-server flag they inherit where they have none of their own, with graceful restart and per-family prefix limits of their own), `dyn-del` / `dyn-add` (a group's dynamic prefix removed through DeleteDynamicNeighbor and configured again; connections from its addresses afterwards are judged against the prefixes that are left, and ListDynamicNeighbor must show exactly what is configured), `grp-upd` (UpdatePeerGroup with another hold time, family set, add-path mode, graceful restart; dynamic neighbours created afterwards are judged against the new values), and `dial`: the remote side of a non-passive neighbour listens and takes the daemon's own outgoing connection, in one third of the cases with an operator task that disables the neighbour at the instant the TCP handshake completes (after the connect task queued the socket, before the dispatch loop took it). Oracle on the wire and on Global: a connection is served (OPEN sent) iff the reference admission predicate holds, otherwise closed before any OPEN byte; the OPEN's AS (confederation id towards non-members), hold time, router id and capability list (families, add-path, graceful restart with its time and families, LLGR with its families and stale times, 4-octet AS) equal the neighbour's or group's configuration; the prefix limits in the peer record equal the configured ones; role read back from the peer record equals the reference; both negotiate(a,b)/negotiate(b,a) give mirror-image parameters; a dynamic neighbour's record disappears when its last connection ends. non-trivial = at least one dynamic neighbour was created or one connection was refused".into(),
             components_real: vec!["accept_connection, Global::add_peer, PeerParams::{build,build_local_cap}, Peer::peer_role, PeerSession::run (delete-on-disconnect)".into(), "packet::{IpNet::contains, PeerCodec::negotiate}".into(), "fsm::PeerFsm (effective send-max)".into(), "GrpcService::{disable_peer,enable_peer}".into()],
             components_stubbed: vec!["TCP (the remote address is whatever the scenario says), clock, listener loop, remote speakers".into()],
             assumptions: vec!["where several dynamic prefixes match, any matching group may be chosen (the statement does not pick one)".into()],
@@ -278,6 +282,7 @@ async fn run(case: Json, tol: Tolerate) -> Outcome {
                 .iter()
                 .map(|j| GroupCfg {
                     prefix: j.s("prefix").to_string(),
+                    prefix2: j.get("prefix2").filter(|x| matches!(x, Json::Str(_))).map(|x| x.as_str().to_string()),
                     asn: j.i("asn", 0) as u32,
                     hold: j.i("hold", 0) as u64,
                     rs: j.get("rs").map(|b| b.as_bool()).unwrap_or(false),
@@ -337,7 +342,10 @@ async fn run(case: Json, tol: Tolerate) -> Outcome {
     for (i, gc) in groups.iter().enumerate() {
         let name = format!("g{}", i);
         w.grpc.add_peer_group(tonic::Request::new(api::AddPeerGroupRequest { peer_group: Some(api_group_msg(&name, gc)) })).await.expect("add_peer_group");
-        w.grpc.add_dynamic_neighbor(tonic::Request::new(api::AddDynamicNeighborRequest { dynamic_neighbor: Some(api::DynamicNeighbor { prefix: gc.prefix.clone(), peer_group: name }) })).await.expect("add_dynamic_neighbor");
+        w.grpc.add_dynamic_neighbor(tonic::Request::new(api::AddDynamicNeighborRequest { dynamic_neighbor: Some(api::DynamicNeighbor { prefix: gc.prefix.clone(), peer_group: name.clone() }) })).await.expect("add_dynamic_neighbor");
+        if let Some(p2) = &gc.prefix2 {
+            w.grpc.add_dynamic_neighbor(tonic::Request::new(api::AddDynamicNeighborRequest { dynamic_neighbor: Some(api::DynamicNeighbor { prefix: p2.clone(), peer_group: name }) })).await.expect("add_dynamic_neighbor (second prefix)");
+        }
     }
     let pool: Vec<IpAddr> = addr_pool().iter().map(|a| a.parse().unwrap()).collect();
     let mut conns: BTreeMap<usize, Speaker> = BTreeMap::new();
@@ -345,7 +353,19 @@ async fn run(case: Json, tol: Tolerate) -> Outcome {
     let mut refused = 0u64;
     let mut dynamic_created = 0u64;
     // whether a group's dynamic prefix is configured at the moment (DeleteDynamicNeighbor / AddDynamicNeighbor)
-    let mut grp_active: Vec<bool> = vec![true; groups.len()];
+    let mut grp_active: Vec<[bool; 2]> = groups.iter().map(|g| [true, g.prefix2.is_some()]).collect();
+    let group_prefixes = |g: &GroupCfg, act: &[bool; 2]| -> Vec<String> {
+        let mut v = Vec::new();
+        if act[0] {
+            v.push(g.prefix.clone());
+        }
+        if act[1] {
+            if let Some(p) = &g.prefix2 {
+                v.push(p.clone());
+            }
+        }
+        v
+    };
 
     macro_rules! fail {
         ($class:expr, $($arg:tt)*) => {{
@@ -360,6 +380,7 @@ async fn run(case: Json, tol: Tolerate) -> Outcome {
         match tag.as_str() {
             "conn" | "second" | "dial" => {
                 let dial = tag == "dial";
+                let race_mode = dial && op.at(5).as_bool();
                 let mut dialled: Option<net::TcpStream> = None;
                 let a = if dial { usize::MAX } else { op.at(1).as_usize() % pool.len() };
                 let addr = if dial { statics[op.at(1).as_usize() % statics.len()].addr.parse::<IpAddr>().unwrap() } else { pool[a] };
@@ -432,7 +453,7 @@ async fn run(case: Json, tol: Tolerate) -> Outcome {
                 }
                 // reference admission predicate
                 let st = statics.iter().position(|s| s.addr.parse::<IpAddr>().unwrap() == addr);
-                let matching: Vec<&GroupCfg> = groups.iter().enumerate().filter(|(gi, g)| grp_active[*gi] && contains(&g.prefix, &addr)).map(|(_, g)| g).collect();
+                let matching: Vec<&GroupCfg> = groups.iter().enumerate().filter(|(gi, g)| group_prefixes(g, &grp_active[*gi]).iter().any(|p| contains(p, &addr))).map(|(_, g)| g).collect();
                 let dyn_exists = { w.global.read().await.peers.contains_key(&addr) } && st.is_none();
                 let expect_admit = match st {
                     Some(i) => !admin_down[i] && !has,
@@ -473,6 +494,23 @@ async fn run(case: Json, tol: Tolerate) -> Outcome {
                 }
                 let got_open = sp.dut_open.is_some();
                 let closed = sp.state == SpkState::Closed;
+                if dial && race_mode {
+                    // The operator's DisablePeer and the dispatch loop's admission both take the global lock,
+                    // in an order the schedule decides (the operator task looked at the slot before it asked
+                    // for the lock): either the neighbour was already administratively down when the socket
+                    // was dispatched (nothing is sent), or the connection was admitted first and DisablePeer
+                    // then tears it down (an OPEN and / or a Cease may have gone out). What may not happen
+                    // is a connection of the disabled neighbour that stays.
+                    if !closed {
+                        fail!("admission/admin-down-neighbour-served/outgoing-connection", "op {} {}: from {}: the neighbour was disabled while its outgoing connection was being set up and the connection is still open (OPEN received={})", opi, op.to_compact(), addr, got_open);
+                    } else if got_open || sp.bytes_rx > 0 {
+                        out.hit("op.dial.admitted-then-torn-down-by-disable");
+                    } else {
+                        refused += 1;
+                    }
+                    sp.close();
+                    continue;
+                }
                 out.hit(if expect_admit { "op.connect.expected-served" } else { "op.connect.expected-refused" });
                 if expect_admit != got_open {
                     let why = match (st, expect_admit) {
@@ -744,20 +782,46 @@ async fn run(case: Json, tol: Tolerate) -> Outcome {
                     w.quiesce().await;
                 }
                 let name = format!("g{}", gi);
+                let pi = if groups[gi].prefix2.is_some() { op.at(2).as_usize() % 2 } else { 0 };
+                let pfx = if pi == 0 { groups[gi].prefix.clone() } else { groups[gi].prefix2.clone().unwrap() };
                 if tag == "dyn-del" {
-                    let r = w.grpc.delete_dynamic_neighbor(tonic::Request::new(api::DeleteDynamicNeighborRequest { prefix: groups[gi].prefix.clone(), peer_group: name })).await;
-                    if r.is_ok() != grp_active[gi] {
-                        fail!("config/delete-dynamic-neighbor-result", "op {} {}: prefix {} of group {} configured={} but DeleteDynamicNeighbor ok={}", opi, op.to_compact(), groups[gi].prefix, gi, grp_active[gi], r.is_ok());
+                    let r = w.grpc.delete_dynamic_neighbor(tonic::Request::new(api::DeleteDynamicNeighborRequest { prefix: pfx.clone(), peer_group: name })).await;
+                    if r.is_ok() != grp_active[gi][pi] {
+                        fail!("config/delete-dynamic-neighbor-result", "op {} {}: prefix {} of group {} configured={} but DeleteDynamicNeighbor ok={}", opi, op.to_compact(), pfx, gi, grp_active[gi][pi], r.is_ok());
                     }
-                    grp_active[gi] = false;
+                    grp_active[gi][pi] = false;
                     out.hit("op.dynamic-prefix-deleted");
                 } else {
-                    let r = w.grpc.add_dynamic_neighbor(tonic::Request::new(api::AddDynamicNeighborRequest { dynamic_neighbor: Some(api::DynamicNeighbor { prefix: groups[gi].prefix.clone(), peer_group: name }) })).await;
+                    let r = w.grpc.add_dynamic_neighbor(tonic::Request::new(api::AddDynamicNeighborRequest { dynamic_neighbor: Some(api::DynamicNeighbor { prefix: pfx.clone(), peer_group: name }) })).await;
                     if r.is_ok() {
-                        grp_active[gi] = true;
+                        grp_active[gi][pi] = true;
                         out.hit("op.dynamic-prefix-added");
-                    } else if !grp_active[gi] {
-                        fail!("config/add-dynamic-neighbor-refused", "op {} {}: prefix {} of group {} is not configured but AddDynamicNeighbor was refused: {:?}", opi, op.to_compact(), groups[gi].prefix, gi, r.err());
+                    } else if !grp_active[gi][pi] {
+                        fail!("config/add-dynamic-neighbor-refused", "op {} {}: prefix {} of group {} is not configured but AddDynamicNeighbor was refused: {:?}", opi, op.to_compact(), pfx, gi, r.err());
+                    }
+                }
+                // what the daemon lists is what is configured
+                if let Ok(r) = w.grpc.list_dynamic_neighbor(tonic::Request::new(api::ListDynamicNeighborRequest { peer_group: String::new() })).await {
+                    let mut st = r.into_inner();
+                    let mut listed: BTreeSet<(String, String)> = BTreeSet::new();
+                    while let Ok(Some(Ok(x))) = tokio::time::timeout(Duration::from_millis(20), st.next()).await {
+                        if let Some(d) = x.dynamic_neighbor {
+                            listed.insert((d.peer_group, d.prefix));
+                        }
+                    }
+                    let mut want: BTreeSet<(String, String)> = BTreeSet::new();
+                    for (k, g) in groups.iter().enumerate() {
+                        for p in group_prefixes(g, &grp_active[k]) {
+                            want.insert((format!("g{}", k), p));
+                        }
+                    }
+                    if listed != want {
+                        fail!("config/dynamic-prefixes-differ-from-what-was-configured", "op {} {}: ListDynamicNeighbor shows {:?}, configured {:?}", opi, op.to_compact(), listed, want);
+                        // resynchronise the model with the daemon
+                        for (k, g) in groups.iter().enumerate() {
+                            grp_active[k][0] = listed.contains(&(format!("g{}", k), g.prefix.clone()));
+                            grp_active[k][1] = g.prefix2.as_ref().is_some_and(|p| listed.contains(&(format!("g{}", k), p.clone())));
+                        }
                     }
                 }
             }
